@@ -101,6 +101,7 @@ class Engine:
         self.feas_timeout = 2000
         self.stats = {"feasible_calls": 0, "paths": 0}
         self.round_axioms = []
+        self.globals_obj = None     # Ref of the heap object holding the mutable module globals of the function's module
 
     # ------------------------------------------------------------------ utilities
     def oblige(self, name, st, goal, prop=None, **meta):
@@ -215,8 +216,8 @@ class Engine:
                 return len(h) > 0
             if "len" in h:
                 return to_z3(h["len"]) > 0 if is_sym(h["len"]) else h["len"] > 0
-            if "items" in h:
-                return len(h["items"]) > 0
+            if "@items" in h:
+                return len(h["@items"]) > 0
             raise Unsupported("truth of container")
         return self.truth(v)
 
@@ -268,6 +269,8 @@ class Engine:
         for f in reversed(st.frames):
             if e.id in f:
                 return [(f[e.id], st)]
+        if self.globals_obj is not None and e.id in st.H(self.globals_obj):
+            return [(st.H(self.globals_obj)[e.id], st)]
         if e.id in self.genv:
             return [(self.genv[e.id], st)]
         if e.id in BUILTINS:
@@ -294,7 +297,7 @@ class Engine:
         for ks, s in self.ev_seq(e.keys, st):
             for vs, s2 in self.ev_seq(e.values, s):
                 s2 = self.fork(s2)
-                r = s2.new("dict", {"items": dict(zip(ks, vs))})
+                r = s2.new("dict", {"@items": dict(zip(ks, vs))})
                 outs.append((r, s2))
         return outs
 
@@ -334,6 +337,8 @@ class Engine:
             if v.cls in self.closed_classes:
                 self.raise_(ExcVal("AttributeError", (name,)), s)
                 return []
+            if isinstance(h, list) or (v.cls == "dict" and "@items" in h):
+                return [(Bound(v, name), s)]
             raise Unsupported(f"attribute {name!r} of {v!r}")
         if isinstance(v, Namespace):
             if name in v.d:
@@ -449,11 +454,11 @@ class Engine:
             for c in self.mro(v.cls):
                 if (c, "__getitem__") in self.methods:
                     return self.methods[(c, "__getitem__")](self, s, v, (i,), {})
-            if v.cls == "dict" and "items" in h:
+            if v.cls == "dict" and "@items" in h:
                 if is_sym(i):
                     raise Unsupported("symbolic dict key")
-                if i in h["items"]:
-                    return [(h["items"][i], s)]
+                if i in h["@items"]:
+                    return [(h["@items"][i], s)]
                 self.raise_("KeyError", s)
                 return []
             raise Unsupported(f"subscript of {v!r}")
@@ -543,6 +548,10 @@ class Engine:
 
     def binop(self, op, a, b, s):
         """-> [(value, state)]"""
+        if isinstance(a, Rec) and a.name != "digits":
+            a = a.astuple()
+        if isinstance(b, Rec) and b.name != "digits":
+            b = b.astuple()
         if isinstance(a, Ref) or isinstance(b, Ref):
             name = {ast.Or: "__or__", ast.BitOr: "__or__", ast.Add: "__add__", ast.Mult: "__mul__"}.get(type(op))
             if isinstance(a, Ref) and isinstance(s.H(a), list) and isinstance(op, ast.Mult):
@@ -779,8 +788,8 @@ class Engine:
             h = s.H(container)
             if isinstance(h, list):
                 container = tuple(h)
-            elif "items" in h:
-                container = tuple(h["items"].keys())
+            elif "@items" in h:
+                container = tuple(h["@items"].keys())
             else:
                 for c in self.mro(container.cls):
                     if (c, "__contains__") in self.methods:
@@ -845,6 +854,9 @@ class Engine:
 
     def ev_Lambda(self, e, st):
         return [(Closure(e, len(st.frames), "<lambda>"), st)]
+
+    def ev_Slice(self, e, st):
+        return [(("slice",) + t, s) for t, s in self.ev_slice(e, st)]
 
     def ev_Starred(self, e, st):
         raise Unsupported("starred outside call/tuple")
@@ -924,8 +936,8 @@ class Engine:
             for acc, s in outs:
                 for v, s2 in self.ev(kw.value, s):
                     if kw.arg is None:
-                        if isinstance(v, Ref) and "items" in s2.H(v):
-                            nxt.append(({**acc, **s2.H(v)["items"]}, s2))
+                        if isinstance(v, Ref) and "@items" in s2.H(v):
+                            nxt.append(({**acc, **s2.H(v)["@items"]}, s2))
                         elif isinstance(v, dict):
                             nxt.append(({**acc, **v}, s2))
                         else:
@@ -961,6 +973,8 @@ class Engine:
             h = s.H(recv)
             if isinstance(h, list):
                 return self.list_method(recv, name, args, s)
+            if recv.cls == "dict" and "@items" in h:
+                return self.dict_method(recv, name, args, s)
             if recv.cls in self.closed_classes:
                 self.raise_(ExcVal("AttributeError", (name,)), s)
                 return []
@@ -981,6 +995,39 @@ class Engine:
         if is_sym(recv) and z3.is_int(recv) and name == "bit_length":
             raise Unsupported("bit_length")
         raise Unsupported(f"method {name} of {recv!r}")
+
+    def dict_method(self, recv, name, args, s):
+        d = s.H(recv)["@items"]
+        if any(is_sym(k) for k in d) or any(is_sym(a) for a in args[:1]):
+            raise Unsupported("dict method with symbolic keys")
+        if name == "items":
+            return [(tuple(d.items()), s)]
+        if name == "keys":
+            return [(tuple(d.keys()), s)]
+        if name == "values":
+            return [(tuple(d.values()), s)]
+        if name == "get":
+            return [(d.get(args[0], args[1] if len(args) > 1 else None), s)]
+        if name in ("update", "pop", "setdefault", "clear"):
+            s = self.fork(s)
+            d = dict(d)
+            if name == "update":
+                for a in args:
+                    d.update(s.H(a)["@items"] if isinstance(a, Ref) else a)
+                r = None
+            elif name == "pop":
+                if args[0] not in d and len(args) < 2:
+                    self.raise_("KeyError", s)
+                    return []
+                r = d.pop(*args)
+            elif name == "setdefault":
+                r = d.setdefault(*args)
+            else:
+                d.clear()
+                r = None
+            s.H(recv)["@items"] = d
+            return [(r, s)]
+        raise Unsupported(f"dict.{name}")
 
     def list_method(self, recv, name, args, s):
         s = self.fork(s)
@@ -1028,7 +1075,7 @@ class Engine:
             else:
                 raise Unsupported(f"missing argument {n}")
         if a.kwarg:
-            frame[a.kwarg.arg] = s.new("dict", {"items": kw})
+            frame[a.kwarg.arg] = s.new("dict", {"@items": kw})
         elif kw:
             raise Unsupported(f"unexpected keyword arguments {list(kw)}")
         return frame
@@ -1147,9 +1194,9 @@ class Engine:
                     f[name] = v
                     return
         if name in fr.get("__global__", ()):
-            s.ghost.setdefault("globals_written", {})
-            s.ghost["globals_written"] = {**s.ghost["globals_written"], name: v}
-            s.frames[0]["global:" + name] = v
+            if self.globals_obj is None:
+                raise Unsupported("write to a module global without a globals object")
+            s.H(self.globals_obj)[name] = v
             return
         fr[name] = v
 
@@ -1202,6 +1249,12 @@ class Engine:
         if isinstance(o, Ref):
             h = s.H(o)
             if isinstance(h, list):
+                if isinstance(i, tuple) and i and i[0] == "slice":
+                    _, lo, hi, step = i
+                    if step is not None or is_sym(lo) or is_sym(hi):
+                        raise Unsupported("symbolic slice store")
+                    h[lo:hi] = self.iter_concrete(v, s)
+                    return
                 if is_sym(i):
                     raise Unsupported("symbolic index store into concrete list")
                 h[i] = v
@@ -1212,8 +1265,8 @@ class Engine:
                     if len(res) != 1 or res[0][1] is not s:
                         raise Unsupported("forking __setitem__")
                     return
-            if "items" in h and not is_sym(i):
-                h["items"] = {**h["items"], i: v}
+            if "@items" in h and not is_sym(i):
+                h["@items"] = {**h["@items"], i: v}
                 return
         raise Unsupported(f"subscript store on {o!r}")
 
@@ -1566,8 +1619,8 @@ def _b_len(eng, s, args, kw):
             return [(len(h), s)]
         if "len" in h:
             return [(h["len"], s)]
-        if "items" in h:
-            return [(len(h["items"]), s)]
+        if "@items" in h:
+            return [(len(h["@items"]), s)]
         for c in eng.mro(v.cls):
             if (c, "__len__") in eng.methods:
                 return eng.methods[(c, "__len__")](eng, s, v, (), {})
@@ -1585,6 +1638,8 @@ def _b_isinstance(eng, s, args, kw):
     r = False
     for tt in ts:
         name = tt.name if isinstance(tt, (ClassV, Fn, Namespace)) else tt
+        if isinstance(tt, Ref):
+            name = getattr(eng, "isinstance_alias", {}).get(tt.cls, tt.cls)
         r = Or(r, eng.isinstance1(v, name, s))
     return [(r, s)]
 
@@ -1749,6 +1804,8 @@ def _b_round(eng, s, args, kw):
 
 
 def _b_int(eng, s, args, kw):
+    if args and isinstance(args[0], Rec) and args[0].name == "digits":
+        return [(args[0].f["v"], s)]
     x = as_arith(args[0]) if args else 0
     if not is_sym(x):
         if isinstance(x, str) and len(args) > 1:
